@@ -335,13 +335,40 @@ func init() {
 		"math/bits.Len16": bitsLen(16),
 		"math/bits.Len8":  bitsLen(8),
 		"unique.Make": uniqueMake,
+		"errors.Is":   errorsIs,
+		"errors.Join": func(e *Engine, s *State, f *Frame, fn *ssa.Function, args []Value, retIdx int, advance bool) (Value, bool) {
+			// opaque non-nil error unless every operand is nil
+			va := args[0].(*SliceV)
+			if va.Base == nil {
+				return &IfaceV{}, true
+			}
+			n := e.concretize(s, va.Len, "errors.Join n")
+			off := e.concretize(s, va.Off, "errors.Join off")
+			var first *IfaceV
+			for i := uint64(0); i < n; i++ {
+				el := e.load(s, &Pointer{Obj: va.Base.Obj, Path: append(append([]int(nil), va.Base.Path...), int(off+i))}).(*IfaceV)
+				if el.T != nil && first == nil {
+					first = el
+				}
+			}
+			if first == nil {
+				return &IfaceV{}, true
+			}
+			fmtPkg := e.prog.ImportedPackage("fmt")
+			if fmtPkg != nil && fmtPkg.Type("wrapError") != nil {
+				wt := fmtPkg.Type("wrapError").Type()
+				o := e.newObj(s, &StructV{Fields: []Value{e.mkString("<join>"), first}}, wt, "errors.Join@"+e.curPos(s))
+				return &IfaceV{T: types.NewPointer(wt), V: &Pointer{Obj: o.ID}}, true
+			}
+			return first, true
+		},
 		"github.com/IrineSistiana/gopool.Go": func(e *Engine, s *State, f *Frame, fn *ssa.Function, args []Value, retIdx int, advance bool) (Value, bool) {
 			fv := args[0].(*FuncV)
 			if fv.Fn == nil {
 				e.fail(s, "panic", "gopool.Go(nil)")
 			}
-			if len(s.gs) >= 12 {
-				e.errf("more than 12 goroutines")
+			if len(s.gs) >= 48 {
+				e.errf("more than 48 goroutines")
 			}
 			e.usedModels = true
 			ng := &Goroutine{id: len(s.gs)}
@@ -528,8 +555,9 @@ func bytespoolGet(e *Engine, s *State, f *Frame, fn *ssa.Function, args []Value,
 			s.bpools[int(cl)] = lst[: len(lst)-1 : len(lst)-1]
 			o := s.wobj(id)
 			o.Released = false
+			o.Gen++
 			o.Label = label + " (recycled)"
-			return &SliceV{Base: &Pointer{Obj: id}, Off: c.BV(0, 64), Len: size, Cap: c.BV(cl, 64)}, true
+			return &SliceV{Base: &Pointer{Obj: id, Gen: o.Gen}, Off: c.BV(0, 64), Len: size, Cap: c.BV(cl, 64)}, true
 		}
 		n := s.ghost["bp#"]
 		s.ghost["bp#"] = n + 1
@@ -800,4 +828,32 @@ func stripTypeArgs(s string) string {
 		}
 	}
 	return sb.String()
+}
+
+// errorsIs: identity comparison along the Unwrap chain of *fmt.wrapError; error types with their own
+// Is/Unwrap methods compare by identity only (none of the repo's error types define them).
+func errorsIs(e *Engine, s *State, f *Frame, fn *ssa.Function, args []Value, retIdx int, advance bool) (Value, bool) {
+	cur := args[0].(*IfaceV)
+	target := args[1].(*IfaceV)
+	for depth := 0; depth < 16; depth++ {
+		if cur.T == nil {
+			return e.c.Bool(target.T == nil), true
+		}
+		if target.T != nil && types.Identical(cur.T, target.T) && types.Comparable(cur.T) {
+			if e.cond(s, e.valueEq(s, cur, target)) {
+				return e.c.True, true
+			}
+		}
+		pt, ok := cur.T.(*types.Pointer)
+		if !ok {
+			return e.c.False, true
+		}
+		nt, ok := pt.Elem().(*types.Named)
+		if !ok || nt.Obj().Pkg() == nil || nt.Obj().Pkg().Path() != "fmt" || nt.Obj().Name() != "wrapError" {
+			return e.c.False, true
+		}
+		inner := e.load(s, cur.V.(*Pointer)).(*StructV).Fields[1].(*IfaceV)
+		cur = inner
+	}
+	return e.c.False, true
 }
